@@ -1,7 +1,7 @@
 (** C20 — benchmark models implement their documented estimators.
     Property theorems only; models in Api/Bench.v, proofs in Api/BenchProofs.v, non-vacuity in Api/BenchExamples.v. *)
 From Coq Require Import QArith List Bool Arith Permutation Sorted.
-From Leaspy Require Import Base.QAux Api.Bench Api.BenchProofs Api.BenchExamples.
+From Leaspy Require Import Base.QAux Api.Bench Api.BenchProofs Api.BenchExamples Api.BenchTie.
 Import ListNotations.
 
 (** 'last': the row of a visit whose age is >= every age; determined by that, hence independent of the row
@@ -153,6 +153,14 @@ Proof.
   intros t y. apply remove_nans_In.
 Qed.
 Print Assumptions C20_personalize.
+
+Theorem C20_personalize_defined : forall p obs,
+  ~ ages_std p == 0 -> remove_nans obs <> [] ->
+  (~ det2 (madd (ZtZ (design p (map fst (remove_nans obs)))) (cov_inv p)) == 0 ->
+     exists b, lme_personalize true p obs = Ok b) /\
+  (0 <= m11 (cov_inv p) -> exists b, lme_personalize false p obs = Ok b).
+Proof. exact lme_personalize_defined. Qed.
+Print Assumptions C20_personalize_defined.
 
 (** the trajectory is the straight line  intercept + slope * age  with
     slope = (fe1 + re1)/ages_std  and  intercept = fe0 + re0 - ages_mean * slope *)
